@@ -70,6 +70,26 @@ def _bisect_case(case):
     """executed in a child process (so that a non-terminating loop can be detected by timeout)"""
     from flowjax import bisection_search as bs
 
+    if case.get("fn") == "_autoregressive_bisection_search":
+        case = dict(case, table=None)
+
+    which = case.get("fn", "_bisection_search")
+    if which == "_autoregressive_bisection_search":
+        dim, tol, mi, seed = case["dim"], case["tol"], case["max_iter"], case["seed"]
+        rng = np.random.default_rng(seed)
+        a = jnp.asarray(rng.uniform(0.5, 2.0, size=dim))
+        Bm = jnp.asarray(np.tril(rng.normal(size=(dim, dim)) * 0.5, -1))  # coupling to EARLIER coordinates only, Lipschitz <= ~1
+        xstar = jnp.asarray(rng.normal(size=dim) * case.get("spread", 3.0))
+
+        def tri(v):
+            return a * v + jnp.tanh(Bm @ v) + 0.1 * v**3
+
+        ystar = tri(xstar)
+        got = bs._autoregressive_bisection_search(lambda v: tri(v) - ystar, lower=jnp.asarray(case["lower"]), upper=jnp.asarray(case["upper"]), tol=tol, length=dim, max_iter=mi)
+        err = float(jnp.max(jnp.abs(got - xstar)))
+        bound = max(tol, 1e-12) * (3.0 ** dim) + 64 * EPS * max(1.0, float(jnp.max(jnp.abs(xstar))))
+        return dict(ok=bool(err <= bound), observed=dict(found=np.asarray(got).tolist(), preimage=np.asarray(xstar).tolist(), max_err=err, bound=bound),
+                    required="coordinate-wise search recovers the preimage of a triangular map increasing in its own coordinate (error <= tol * accumulation factor)")
     if case.get("table"):
         f = table_fn(case["table"])
         if f is None:
@@ -77,7 +97,6 @@ def _bisect_case(case):
     else:
         f = FUNCS[case["func"]](case["root"])
     r, lo, hi = case["root"], case["lower"], case["upper"]
-    which = case.get("fn", "_bisection_search")
     if which == "_adapt_interval_to_include_root":
         a, b, n = bs._adapt_interval_to_include_root(f, lower=jnp.asarray(lo), upper=jnp.asarray(hi))
         a, b = float(a), float(b)
